@@ -17,6 +17,10 @@ GUARD_GROUPS = ("cond", "unless")
 SENDER = contextvars.ContextVar("sim_sender", default=None)
 
 
+class SimBlank:
+    """A listener that provides nothing."""
+
+
 class SimFault(Exception):
     pass
 
@@ -340,6 +344,12 @@ class Sim:
                 pass
         return out
 
+    def _attach_blank(self, sm):
+        """A callback attaches one more listener (an object without any callback) to its own machine
+        while the event is being processed."""
+        self.stats["attach"] = self.stats.get("attach", 0) + 1
+        sm.add_listener(SimBlank())
+
     # ------------------------------------------------------------------ synchronous callbacks
     def cb(self, cbid, obj, loc, grp=None):
         tag, epoch, j, q, sv, dp = self._begin(cbid, obj, loc, grp)
@@ -353,6 +363,8 @@ class Sim:
                 self.threads.yield_point("cb")
             ret = None
             if rule is not None:
+                if rule.get("attach"):
+                    self._attach_blank(self._machine(tag, obj, loc))
                 if rule.get("write") is not None:
                     self._write_model(tag, rule["write"])
                 sends = rule.get("sends")
@@ -445,6 +457,8 @@ class Sim:
             rule = self.rule(cbid, tag, epoch, j, loc, dp)
             ret = None
             if rule is not None:
+                if rule.get("attach"):
+                    self._attach_blank(self._machine(tag, obj, loc))
                 pre = rule.get("pre")
                 if pre is not None:
                     self.stats["delays"] += 1
